@@ -336,6 +336,19 @@ def run_unit(unit: Unit, repo: str = REPO, probe: bool = True, tag: str = '', _d
         ur.failures = [f for f in ur.failures if f not in und]
         ur.undecided = [f'{f.obligation}: undecided because ' + '; '.join(out.unconstrained[f.obligation.split("#")[0]][:3]) for f in und]
         ur.undecided_failures = und
+    # functions whose anchors were lost (emitted as declarations, see UnitX._splice): their clauses are undecided
+    lost = getattr(unit, 'lost', None) or []
+    if lost:
+        lf = []
+        for fid, labs, why in lost:
+            for ob in labs:
+                fl = Failure(unit.name, ob, 'not verifiable: anchor lost: ' + why[:200], [], why)
+                fl.props = sorted(set(unit.props_of(ob)))
+                lf.append(fl)
+                if ob not in ur.obligations:
+                    ur.obligations.append(ob)
+        ur.undecided_failures = list(getattr(ur, 'undecided_failures', []) or []) + lf
+        ur.undecided = list(getattr(ur, 'undecided', []) or []) + [f'{fid}: anchor lost ({why[:120]})' for fid, _, why in lost]
     if vr.errors and not ur.failures and not getattr(ur, 'undecided', None):
         ur.reason = 'Verus reported errors that could not be mapped: ' + vr.stderr[-400:]
         ur.wall_s = time.time() - t0
